@@ -50,6 +50,9 @@ def run(ctx) -> None:
     # Q: the regex is searched in the stream of this operation's own listing (nothing carried over from an earlier operation)
     from ._matchrules import stream_per_run
     stream_per_run(ctx, "C05.Q.searched-stream-is-this-operations")
+    # Q3: and the verdict / hit list returned is built from this operation's scan only
+    from ._matchrules import repeated_operation
+    repeated_operation(ctx, "C05.Q.verdict-of-this-operations-scan")
     # Q2: the regex searched is the one generated while the rule's own config was in force (generated in the constructor,
     # right after the rule's config was loaded; matching reuses it)
     from ._matchrules import compiled_with_own_config
